@@ -6,6 +6,7 @@ import (
 	"strconv"
 	"strings"
 	"testing"
+	"unicode"
 	"unicode/utf8"
 
 	"github.com/go-kid/ioc/app"
@@ -376,6 +377,20 @@ func TestEndToEndProp(t *testing.T) {
 
 // ---- totality ------------------------------------------------------------------
 
+// lengthChanging: letters whose upper- or lower-case form has another UTF-8 length (first-letter case handling must
+// not assume the length stays the same)
+var lengthChanging = func() []string {
+	var out []string
+	for r := rune(0x80); r < 0x3000; r++ {
+		if u := unicode.ToUpper(r); u != r && utf8.RuneLen(u) != utf8.RuneLen(r) {
+			out = append(out, string(r))
+		} else if l := unicode.ToLower(r); l != r && utf8.RuneLen(l) != utf8.RuneLen(r) {
+			out = append(out, string(r))
+		}
+	}
+	return out
+}()
+
 var hostile = []string{",", "=", " ", "[", "]", "(", ")", "{", "}", "a", "R", "required", "false", "=false", ",=", "é", "世", "\x00", "\xff", "\"", "\\", "${", "#{", ":", "qualifier"}
 
 func scanProp(tag string) (pan any) {
@@ -447,9 +462,13 @@ func TestTotality(t *testing.T) {
 	kit.Rec.Rule(rule)
 	rapid.Check(t, func(t *rapid.T) {
 		var s string
-		if rapid.Bool().Draw(t, "alphabet") {
+		switch rapid.IntRange(0, 2).Draw(t, "alphabet") {
+		case 0:
 			s = strings.Join(rapid.SliceOfN(rapid.SampledFrom(hostile), 0, 14).Draw(t, "tokens"), "")
-		} else {
+		case 1:
+			// argument names / values that start with a letter whose case mapping changes its encoded length
+			s = strings.Join(rapid.SliceOfN(rapid.OneOf(rapid.SampledFrom(hostile), rapid.SampledFrom(lengthChanging)), 0, 10).Draw(t, "tokens2"), "")
+		default:
 			s = string(rapid.SliceOfN(rapid.Byte(), 0, 24).Draw(t, "bytes"))
 		}
 		if err := totalityOracle(s); err != nil {
